@@ -179,7 +179,8 @@ func (s *verifSnap) verifNoForeignBoxes() bool {
 // verifSender: a symbolic sender identifier ranging over {1, 2, 3}; the case split over its
 // value is made first, so that the state can give the addressed cell all payload lengths.
 func verifSender() (sharing.ID, int) {
-	from := sharing.ID(verifU64()%verifNS + 1)
+	from := sharing.ID(verifU8() & 3)
+	verifAssume(from != 0)
 	switch from {
 	case 1:
 		return from, 0
